@@ -143,7 +143,8 @@ stmt
 		$<dex>$->right = $<dex>3;
 	}
 	| TOK_NOT stmt {
-		($<dex>$ = $<dex>2)->nega = 1;
+		/* toggle, there may be a negation already, think !!a or !(!a) */
+		($<dex>$ = $<dex>2)->nega = !$<dex>2->nega;
 	}
 	| TOK_LPAREN stmt TOK_RPAREN {
 		$<dex>$ = $<dex>2;
